@@ -225,3 +225,107 @@ VARIANTS = [
      "old": "            if val is None:\n                continue\n\n            spec_cls = spec",
      "new": "            if not val:\n                continue\n\n            spec_cls = spec"},
 ]
+
+# ---------------------------------------------------------------------- strengthening round
+MESH = "hippolyzer/lib/base/mesh.py"
+
+_SENDER_LOOP_OLD = """            chunk_num = 0
+            while data:
+                self.chunks[chunk_num] = data[:MAX_CHUNK_SIZE]
+                data = data[MAX_CHUNK_SIZE:]
+                chunk_num += 1
+"""
+_SENDER_OFFSET_LOOP = """            chunk_num = 0
+            offset = 0
+            while offset < total:
+                self.chunks[chunk_num] = data[offset:offset + MAX_CHUNK_SIZE]
+                offset += MAX_CHUNK_SIZE
+                chunk_num += 1
+"""
+_PREFIX_COMMENT = "            # Prepend the expected length field to the first chunk\n"
+
+_WEIGHTS_READER_OLD = """        for _ in range(cls.INFLUENCE_LIMIT):
+            joint_idx = reader.read_bytes(1)[0]
+            if joint_idx == cls.INFLUENCE_TERM:
+                break
+"""
+_MODEL_READER_OLD = """            if key == "inv_object":
+                obj = InventoryObject.from_reader(reader)
+                if obj is not None:
+                    model.add(obj)
+            elif key == "inv_category":
+                cat = InventoryCategory.from_reader(reader)
+                if cat is not None:
+                    model.add(cat)
+            elif key == "inv_item":
+                item = InventoryItem.from_reader(reader)
+                if item is not None:
+                    model.add(item)
+            else:
+"""
+_MODEL_READER_TABLE = """            node_cls = _READERS.get(key)
+            if node_cls is not None:
+                parsed = node_cls.from_reader(reader)
+                if parsed is not None:
+                    model.add(parsed)
+            else:
+"""
+_TYPES_LINE = "INVENTORY_TYPES: Tuple[Type[InventoryNodeBase], ...] = (InventoryCategory, InventoryObject, InventoryItem)\n"
+
+VARIANTS += [
+    {"name": "R4 payload length taken before the prefix bounds the chunk loop", "expect": "C20.R4",
+     "edits": [{"file": XFER, "old": _PREFIX_COMMENT, "new": "            total = len(data)\n" + _PREFIX_COMMENT},
+               {"file": XFER, "old": _SENDER_LOOP_OLD, "new": _SENDER_OFFSET_LOOP}]},
+    {"name": "R4 offset window advances by another size", "expect": "C20.R4",
+     "edits": [{"file": XFER, "old": _SENDER_LOOP_OLD,
+                "new": "            total = len(data)\n" + _SENDER_OFFSET_LOOP.replace("offset += MAX_CHUNK_SIZE", "offset += MAX_CHUNK_SIZE + 1")}]},
+    {"name": "P R4 offset-window chunking over the prefixed buffer", "expect": "silent",
+     "edits": [{"file": XFER, "old": _SENDER_LOOP_OLD, "new": "            total = len(data)\n" + _SENDER_OFFSET_LOOP}]},
+    {"name": "P R4 chunk count from the prefixed buffer, range loop", "expect": "silent",
+     "edits": [{"file": XFER, "old": _SENDER_LOOP_OLD,
+                "new": "            count = (len(data) + MAX_CHUNK_SIZE - 1) // MAX_CHUNK_SIZE\n"
+                       "            for chunk_num in range(count):\n"
+                       "                start = chunk_num * MAX_CHUNK_SIZE\n"
+                       "                self.chunks[chunk_num] = data[start:start + MAX_CHUNK_SIZE]\n"}]},
+    {"name": "R7 weights reader stops only at the terminator", "file": MESH, "expect": "C20.R7",
+     "old": _WEIGHTS_READER_OLD,
+     "new": """        while True:
+            joint_idx = reader.read_bytes(1)[0]
+            if joint_idx == cls.INFLUENCE_TERM:
+                break
+"""},
+    {"name": "R7 weights writer always terminates, reader still counts", "file": MESH, "expect": "C20.R7",
+     "old": "        if len(vals) != cls.INFLUENCE_LIMIT:\n            writer.write(se.U8, cls.INFLUENCE_TERM)",
+     "new": "        writer.write(se.U8, cls.INFLUENCE_TERM)"},
+    {"name": "R7 weights reader counts to a different limit", "file": MESH, "expect": "C20.R7",
+     "old": "        for _ in range(cls.INFLUENCE_LIMIT):\n            joint_idx = reader.read_bytes(1)[0]",
+     "new": "        for _ in range(cls.INFLUENCE_LIMIT + 1):\n            joint_idx = reader.read_bytes(1)[0]"},
+    {"name": "P R7 count bound as a while test, writer guard as <", "expect": "silent",
+     "edits": [{"file": MESH, "old": _WEIGHTS_READER_OLD,
+                "new": """        while len(influence_list) < cls.INFLUENCE_LIMIT:
+            joint_idx = reader.read_bytes(1)[0]
+            if joint_idx == cls.INFLUENCE_TERM:
+                break
+"""},
+               {"file": MESH, "old": "        if len(vals) != cls.INFLUENCE_LIMIT:\n            writer.write(se.U8, cls.INFLUENCE_TERM)",
+                "new": "        if len(vals) < cls.INFLUENCE_LIMIT:\n            writer.write(se.U8, cls.INFLUENCE_TERM)"}]},
+    {"name": "P R7 count bound as an exit test inside while True", "file": MESH, "expect": "silent",
+     "old": _WEIGHTS_READER_OLD,
+     "new": """        while True:
+            if len(influence_list) >= cls.INFLUENCE_LIMIT:
+                break
+            joint_idx = reader.read_bytes(1)[0]
+            if joint_idx == cls.INFLUENCE_TERM:
+                break
+"""},
+    {"name": "R3 table dispatch with a misspelt schema key", "expect": "C20.R3",
+     "edits": [{"file": INV, "old": _MODEL_READER_OLD, "new": _MODEL_READER_TABLE},
+               {"file": INV, "old": _TYPES_LINE,
+                "new": _TYPES_LINE + '_READERS = {"inv_object": InventoryObject, "inv_cat": InventoryCategory, '
+                                     '"inv_item": InventoryItem}\n'}]},
+    {"name": "P R3 table dispatch of the model-level reader", "expect": "silent",
+     "edits": [{"file": INV, "old": _MODEL_READER_OLD, "new": _MODEL_READER_TABLE},
+               {"file": INV, "old": _TYPES_LINE,
+                "new": _TYPES_LINE + '_READERS = {"inv_object": InventoryObject, "inv_category": InventoryCategory, '
+                                     '"inv_item": InventoryItem}\n'}]},
+]
